@@ -25,7 +25,7 @@ ASSUMPTIONS = ["kappa(A) <= 1e3 by construction; the sound-flag bound for left_l
                "rounding floor 1e3*n*eps*kappa on relative residuals"]
 SHARDS = {"quick": 8, "thorough": 16}
 TIMEOUT = {"quick": 900, "thorough": 5400}
-DECIDING = ["M1_residual_truthful", "M2_flag_sound", "M3_history_nonincreasing", "M4_cycle_optimal", "M5_solves_within_n_cycles",
+DECIDING = ["M1_residual_truthful", "M2_flag_sound", "M3_history_nonincreasing", "M3_history_truthful", "M4_cycle_optimal", "M5_solves_within_n_cycles",
             "M6_same_solution", "zero_rhs"]
 MUST_REACH = ["gmres:lucky_breakdown", "gmres:lu_fallback"]
 
@@ -225,6 +225,7 @@ def _system(spec, ctx, R):
         xo = embed.solve(A, b)
         # --- full runs: cap None, tolerances, preconditioners, storage ---------------------
         sols = {}
+        sols_info = {}
         for tol in tols:
             for prec in (None, "left_lu"):
                 for sp in ((False, True) if (tol == tols[0] or tier == "thorough") else (False,)):
@@ -247,6 +248,8 @@ def _system(spec, ctx, R):
                         ctx.check("M6_same_solution", err, kappa * (max(tol * cfac, floor) + floor) * 1.01, site=site + ":vs_oracle", tags=tags,
                                   detail={"rel_err": err, "tol": tol})
                     sols[(tol, prec, sp)] = x
+                    if tol == min(tols) and not sp:
+                        sols_info[prec] = list(inf.get("residual_history") or [])
         # --- every restart iterate: caps 0..n-1 with tol = 1e-300 (stops only on an exactly zero residual) --------------------------------
         for prec in (None, "left_lu") if (tier == "thorough" or bi == 0) else (None,):
             x_prev = refq.zeros(n, 1)
@@ -277,6 +280,21 @@ def _system(spec, ctx, R):
                 if m == n:
                     ctx.check("M5_solves_within_n_cycles", r, (max(1.0, kappa) if prec else 1.0) * floor * 10, site=site + ":after_n_cycles",
                               tags=tags, detail={"residual_after_n_cycles": r, "n": n, "kappa": kappa})
+                # the history reported by a full run is the history of these iterates (entry m-1 = residual of the cycle-m iterate)
+                full = sols_info.get(prec)
+                if full is not None and len(full) >= m and prec is None:
+                    rep_m = float(full[m - 1][2])
+                    scale = refq.fro(A) * refq.fro(x) / refq.fro(b) + 1.0
+                    ctx.check("M3_history_truthful", abs(rep_m - r), 1e-9 * r + 64 * n * EPS * scale, site=site + ":vs_full_run", tags=tags,
+                              detail={"cycle": m, "reported": rep_m, "true": r})
+                # user tolerances combined with the cap: the flag must follow the residual of the iterate that is returned
+                for utol in ((1e-2,) if tier == "quick" else (1e-2, 1e-4, 1e-8)):
+                    try:
+                        xu, infu = solve(R, A, b, tol=utol, cap=m - 1, prec=prec)
+                    except Exception as e:
+                        ctx.check("M2_flag_sound", False, site=site + ":tol_and_cap", tags=tags, detail={"exception": repr(e)[:200]})
+                        continue
+                    judge_solve(ctx, A, b, xu, infu, tol=utol, cap=m - 1, prec=prec, kappa=kappa, site=site + ":tol_and_cap", tags=tags)
                 x_prev = x
         if bi == 0 and spec["idx"] % 12 == 0:
             ctx.sample({"class": cls, "n": n, "kappa": kappa, "rhs": bname, "A": A, "b": b})
